@@ -810,17 +810,23 @@ def _cm_dropped(em, chain_line):
     resets = [n for n in resets if not any(n is not m and n in list(ast.walk(m)) for m in resets)]
     if not resets:
         raise Unsupported("emit never compares colored_message.stripped with record['message']")
+    def execute(stmts, env, st):
+        for x in stmts:
+            if isinstance(x, ast.If):
+                # `and` short-circuits: `.stripped` is only read when a coloured message is (still) there
+                execute(x.body if _beval(x.test, atoms, dict(env, given=st["cm"])) else x.orelse, env, st)
+            elif ast.unparse(x) == "colored_message = None":
+                st["cm"] = False
+            elif isinstance(x, ast.Pass):
+                continue
+            else:
+                raise Unsupported("reset of colored_message: " + ast.unparse(x)[:80])
     rows = []
     for vals in itertools.product([False, True], repeat=2):
         env = dict(zip(("given", "differs"), vals))
-        cm = env["given"]
-        for n in resets:
-            if n.orelse or [ast.unparse(x) for x in n.body] != ["colored_message = None"]:
-                raise Unsupported("reset of colored_message: " + ast.unparse(n)[:80])
-            # `and` short-circuits: `.stripped` is only read when a coloured message is there
-            if _beval(n.test, atoms, dict(env, given=cm)):
-                cm = False
-        rows.append((vals, "true" if (env["given"] and not cm) else "false"))
+        st = {"cm": env["given"]}
+        execute(resets, env, st)
+        rows.append((vals, "true" if (env["given"] and not st["cm"]) else "false"))
     return _lean_table("cmDropped", ["given", "differs"], "Bool", rows,
                        "is the coloured message handed to `emit` discarded before formatting (a patcher replaced "
                        "`record[\"message\"]`)")
